@@ -181,16 +181,16 @@ theorem trailingslash_redirect_or_next (ρ : Atom → Bool) :
   ⟨every_exec trailingslash_handler [1, 34, 47] _ (by decide) ρ, every_exec trailingslash_wrap [42, 43] _ (by decide) ρ⟩
 
 /-- `redirect308`: the new path is put on the URL, the Location comes from `redirectLocation` (the K17 repair), 308 is
-    written, the chain is aborted; `redirect308HTTP` the same without a chain; `redirectLocation` prints the URL and
-    tests the `//` prefix -/
+    written, the chain is aborted; `redirect308HTTP` the same without a chain; `redirectLocation` prints the URL — as it
+    is when it has a host (K17d), otherwise the path reference, whose `//` prefix it tests (K17) -/
 theorem trailingslash_redirect_shape (ρ : Atom → Bool) :
     codesOf ((exec ρ trailingslash_redirect308).trace.filter (keepCodes [48, 37, 35, 36, 2, 1])) = [48, 37, 35, 36, 2] ∧
     codesOf ((exec ρ trailingslash_redirect308HTTP).trace.filter (keepCodes [48, 37, 44, 45, 43])) = [48, 37, 44, 45] ∧
-    codesOf ((exec ρ trailingslash_redirectLocation).trace.filter (keepCodes [38, 9])) = [38, 9] := by
+    [[38], [38, 9]].contains (codesOf ((exec ρ trailingslash_redirectLocation).trace.filter (keepCodes [38, 9]))) = true := by
   refine ⟨?_, ?_, ?_⟩
   · simpa using every_exec trailingslash_redirect308 [48, 37, 35, 36, 2, 1] (fun t => t == [48, 37, 35, 36, 2]) (by decide) ρ
   · simpa using every_exec trailingslash_redirect308HTTP [48, 37, 44, 45, 43] (fun t => t == [48, 37, 44, 45]) (by decide) ρ
-  · simpa using every_exec trailingslash_redirectLocation [38, 9] (fun t => t == [38, 9]) (by decide) ρ
+  · exact every_exec trailingslash_redirectLocation [38, 9] _ (by decide) ρ
 
 /-- the policies are numbered as the model numbers them (`Slash.Req.policy`: 0 remove, 1 add, 2 strict), remove is the
     default -/
